@@ -1025,6 +1025,7 @@ func (w *World) opFork(op *Op) {
 		nt.modKeys[k] = true
 	}
 	nt.base, nt.baseRoot, nt.baseHeight = src.base, src.baseRoot, src.baseHeight
+	nt.hChanged = src.hChanged // a height change since the base version is inherited by the clone
 	w.placeTree(op.N, nt)
 	w.st.Probes["fork"]++
 	w.sanity(nt, "fork")
